@@ -1530,6 +1530,9 @@ func (p *Parser) parseTemplateLiteral(precLeft OpPrec) (template TemplateExpr) {
 func (p *Parser) parseArguments() (args Args) {
 	// assume we're on (
 	p.next()
+	prevIn := p.in
+	p.in = true // the in operator is allowed between the parentheses, also in a for statement initializer
+	defer func() { p.in = prevIn }()
 	args.List = make([]Arg, 0, 4)
 	for p.tt != CloseParenToken && p.tt != ErrorToken {
 		rest := p.tt == EllipsisToken
